@@ -251,6 +251,13 @@ def schemes(draw, *, labels="neutral", allow_full=True, max_datasets=4, features
         "clp_link_tolerance": 0.0,
         "clp_link_method": "nearest",
     }
+    for d in datasets:
+        if draw(st.integers(0, 3)) == 0:
+            # the same numbers in another representation: single precision / integer counts, Fortran order, a strided view,
+            # a read-only array, integer axis coordinates (where the axis values are whole numbers)
+            d["repr"] = {"dtype": draw(st.sampled_from(["float64", "float32", "int64"])),
+                         "layout": draw(st.sampled_from(["C", "F", "strided", "readonly"])),
+                         "axis_int": draw(st.booleans())}
     range_items = bool(penalties) or any(w.get("global_interval") is not None for w in weights)
     if not range_items and draw(st.integers(0, 3)) == 0:
         # global axes as instruments deliver them: descending (wavenumbers), or in acquisition order.  Items that act on index
@@ -349,11 +356,33 @@ def dataset_arrays(d):
     g = np.asarray(d["global_axis"])[None, :]
     base = np.exp(-0.5 * np.abs(t)) * (1.0 + 0.3 * np.cos(g)) + 0.5 / (1 + t * t) * (0.5 + 0.1 * g)
     data = d.get("data_sign", 1) * base * (1 + rng.uniform(-0.2, 0.2)) + d["noise"] * rng.standard_normal((nm, ng)) + 0.05 * rng.standard_normal((nm, ng))
+    rep = d.get("repr") or {}
+    if rep.get("dtype") == "float32":
+        data = data.astype(np.float32).astype(np.float64)  # the values a float32 file holds
+    elif rep.get("dtype") == "int64":
+        data = np.round(data * 1000.0)  # detector counts
     weight = None
     if d.get("dataset_weight_seed") is not None:
         wr = np.random.default_rng(d["dataset_weight_seed"])
         weight = wr.uniform(0.5, 2.0, (nm, ng))
     return data, weight
+
+
+def _represent(arr, rep):
+    """The same values in the memory representation ``rep`` asks for (dtype, Fortran order, strided view, read-only)."""
+    rep = rep or {}
+    out = arr.astype({"float32": np.float32, "int64": np.int64}.get(rep.get("dtype"), np.float64))
+    layout = rep.get("layout", "C")
+    if layout == "F":
+        out = np.asfortranarray(out)
+    elif layout == "strided":
+        big = np.zeros((out.shape[0] * 2, out.shape[1] * 2), dtype=out.dtype)
+        big[::2, ::2] = out
+        out = big[::2, ::2]
+    elif layout == "readonly":
+        out = out.copy()
+        out.setflags(write=False)
+    return out
 
 
 def build(case):
@@ -367,12 +396,15 @@ def build(case):
     for d in case["datasets"]:
         arr, weight = dataset_arrays(d)
         coords = {"model": np.asarray(d["model_axis"], dtype=float), "global": np.asarray(d["global_axis"], dtype=float)}
+        rep = d.get("repr") or {}
+        if rep.get("axis_int") and all(float(g).is_integer() for g in d["global_axis"]):
+            coords["global"] = np.asarray(d["global_axis"], dtype=np.int64)
         if d["transposed"]:
-            ds = xr.Dataset({"data": (("global", "model"), arr.T.copy())}, coords=coords)
+            ds = xr.Dataset({"data": (("global", "model"), _represent(arr.T.copy(), rep))}, coords=coords)
             if weight is not None:
                 ds["weight"] = (("global", "model"), weight.T.copy())
         else:
-            ds = xr.Dataset({"data": (("model", "global"), arr.copy())}, coords=coords)
+            ds = xr.Dataset({"data": (("model", "global"), _represent(arr.copy(), rep))}, coords=coords)
             if weight is not None:
                 ds["weight"] = (("model", "global"), weight.copy())
         data[d["label"]] = ds
